@@ -2,12 +2,13 @@
   Spec-side commands of the driver (oracles used by the search step of tools/check.py).
 -/
 import Avra.Spec.HexReader
+import Avra.Spec.Mnemonic
 namespace Avra.Spec
 open Avra
 
 def specCommand (kind : String) (args : List String) : Option String :=
-  let _ := args
   match kind with
+  | "ENC" => encCommand args
   | _ => none
 
 end Avra.Spec
